@@ -47,7 +47,32 @@ STATUS = ["CF", "PF", "ZF", "SF", "OF"]
 CX_CLASSES = [("0", (0, 0)), ("1", (1, 1)), ("2..65535", (2, 65535))]
 
 
-def truth_table(ctx, k):
+def mnemonic_cases(G, nt="jumps_condition"):
+    """(k, production, mnemonic, chooser): every way the nonterminal derives one mnemonic.  An alternative that starts with a
+    keyword is one case; an alternative whose mnemonic comes out of a sub-nonterminal (all of whose alternatives are single
+    keywords) is one case per keyword, with the sub-nonterminal forced to that alternative."""
+    out = []
+    for k, p in enumerate(G.productions(nt)):
+        terms = [s_["name"].strip('"') for s_ in p["symbols"] if s_["t"] == "term"]
+        if terms:
+            out.append((k, p, terms[0], None))
+            continue
+        subs = [s_["name"] for s_ in p["symbols"] if s_["t"] != "term"]
+        done = False
+        for sub in subs:
+            alts = G.productions(sub)
+            if alts and all(len([x for x in a["symbols"] if x["t"] == "term"]) == 1 and len(a["symbols"]) == 1 for a in alts):
+                for j, a in enumerate(alts):
+                    m = a["symbols"][0]["name"].strip('"')
+                    out.append((k, p, m, (lambda path, nt_, prods, sub=sub, j=j: j if nt_ == sub else None)))
+                done = True
+                break
+        if not done:
+            out.append((k, p, None, None))
+    return out
+
+
+def truth_table(ctx, k, chooser=None):
     """{(cxclass, (CF,PF,ZF,SF,OF)) -> bool}, plus per-class machine effects"""
     P = ctx.program
     split = frozenset(("flag", i) for i in range(16))
@@ -64,7 +89,7 @@ def truth_table(ctx, k):
             st.frames[0]["vm"] = AggV(vm.name, [AggV(arch.name, fs)] + list(vm.fields[1:]))
 
         def one(asm, sp):
-            I, st, v, r = run_interp_production(ctx, "jumps_condition", k, assume=asm, split=sp, pre=pre)
+            I, st, v, r = run_interp_production(ctx, "jumps_condition", k, chooser, assume=asm, split=sp, pre=pre)
             if v is not None and v.kind == "int" and not v.is_const():
                 # the predicate is returned as a value (no branch forced a case split): split on a flag bit it depends on
                 need = sorted(d for d in v.deps() if d in sp)
@@ -179,14 +204,16 @@ def run(ctx, chk):
 
     # R1/R3/R4 per interpreter mnemonic
     tables = {}
-    for k, p in enumerate(G.productions("jumps_condition")):
-        m = [s["name"].strip('"') for s in p["symbols"] if s["t"] == "term"][0]
+    for k, p, m, chooser in mnemonic_cases(G):
         where = f"{G.g['file']}:{p['line']}"
+        if m is None:
+            chk.undecided_("C06.R1", f"jumps_condition#{k}", "alternative without a mnemonic keyword: its cases are not enumerated")
+            continue
         if m not in INTEL:
             chk.violation("C06.R1", m, "unknown-mnemonic", f"interpreter accepts '{m}', which is not an 8086 conditional transfer", where)
             continue
         try:
-            res, err = truth_table(ctx, k)
+            res, err = truth_table(ctx, k, chooser)
         except Unsupported as e:
             res, err = None, str(e)
         if res == "depends":
@@ -339,7 +366,7 @@ def spelling_rule(ctx, chk, tables):
         if key not in INTEL:
             chk.violation("C06.R6", src, "unknown-spelling", f"assembler accepts '{src}', not an 8086 conditional transfer", where)
             continue
-        interp_mnems = {[s_["name"].strip('"') for s_ in p_["symbols"] if s_["t"] == "term"][0] for p_ in G.productions("jumps_condition")}
+        interp_mnems = {m_ for _k, _p, m_, _c in mnemonic_cases(G) if m_ is not None}
         if emitted not in interp_mnems:
             chk.violation("C06.R6", src, "emits-unknown-mnemonic", f"'{src}' is emitted as '{emitted}', which the interpreter grammar does not have", where)
             continue
